@@ -2,14 +2,14 @@
 import os
 import time
 
-from common import (NCPU, REPLAYS, HarnessError, cargo_build, known_findings, log, repo_state, run_allocfault, run_capture, run_engine_miri,
+from common import (NCPU, REPLAYS, HarnessError, cargo_build, known_findings, log, repo_state, run_allocfault, run_capture, run_engine_careful, run_engine_miri,
                     run_engine_native, write_evidence)
 
 PROP = "C03"
 
 BUDGET = {
-    "quick": {"l1": 2_000_000, "l2": 1_000_000, "l1_miri": 192, "l2_miri": 96, "miri_procs": 16, "cpp": 40000, "allocfault": 600},
-    "thorough": {"l1": 200_000_000, "l2": 100_000_000, "l1_miri": 2000, "l2_miri": 1000, "miri_procs": 16, "cpp": 4_000_000, "allocfault": 30000},
+    "quick": {"l1": 2_000_000, "l2": 1_000_000, "l1_miri": 192, "l2_miri": 96, "miri_procs": 16, "cpp": 40000, "allocfault": 600, "careful": 300_000},
+    "thorough": {"l1": 200_000_000, "l2": 100_000_000, "l1_miri": 2000, "l2_miri": 1000, "miri_procs": 16, "cpp": 4_000_000, "allocfault": 30000, "careful": 20_000_000},
 }
 
 
@@ -33,6 +33,17 @@ def check(tier, seed):
         for s in stats["samples"][:1]:
             if len(samples) < 6:
                 samples.append({"phase": name, "trace": s})
+
+    # careful phases first: free-tracking allocator, one thread per process, double frees pinpointed
+    for layer, sub, n in (("L1", ["l1"], b["careful"]), ("L2C", ["l2"], b["careful"])):
+        if violations:
+            break
+        t1 = time.time()
+        stats, viols = run_engine_careful(binary, sub, seed, n, PROP, "own-" + sub[0])
+        if stats:
+            absorb(layer + "-careful", stats, time.time() - t1)
+        violations += viols
+        log("[C03] %s careful (free-tracking allocator): %s runs, %d violations (%.1fs)" % (layer, stats["runs"] if stats else "?", len(viols), time.time() - t1))
 
     for layer, sub, n in (("L1", ["l1"], b["l1"]), ("L2C", ["l2"], b["l2"])):
         if violations:
@@ -138,6 +149,24 @@ def check(tier, seed):
 def replay(path):
     bindir = cargo_build(["own-sim"])
     text = open(path).read()
+    if text.startswith("# range-replay"):
+        import re
+        m = re.match(r"# range-replay engine=(\S+) sub=(\S+) seed=(\d+) from=(\d+) to=(\d+)", text)
+        rc, out, err = run_capture([os.path.join(bindir, "own-sim"), m.group(2), "run", "--seed", m.group(3), "--from", m.group(4), "--to", m.group(5), "--threads", "1", "--out", "-"])
+        if rc not in (0, 1, 2):
+            print(err[-600:])
+            print("VIOLATION property=%s replay=%s oracle=CRASH (the process died again, rc=%d)" % (PROP, path, rc))
+            return 1
+        print("REPLAY-OK the range ran to completion (rc=%d)" % rc)
+        return 0 if rc == 0 else rc
+    if "engine write-sim-allocfault" in text:
+        wbin = os.path.join(cargo_build(["write-sim"]), "write-sim")
+        rc, out, err = run_capture([wbin, "allocfault", "--replay", path, "--prop", PROP])
+        print(out, end="")
+        if rc in (134, -6) and "memory allocation of" in err:
+            print("REPLAY-OK the injected allocation failure ended in Rust's out-of-memory abort (no memory error)")
+            return 0
+        return rc if rc in (0, 1, 2) else 1
     if path.endswith(".txt") and "reproduce:" in text:
         print(text[:3000])
         return 1
